@@ -15,7 +15,7 @@ open PytypeModel.Plan PytypeModel.Ninja
      step  : `<id>:<first 0/1>:<c|i>:<deps>:<imports>`; deps `-`|`out,out`; imports `-`|`key=out,..`
      out   : `D` | `<id>.<0|1>`
 `yield <req> <kinds> <groups>` → `ok <item> ..`, item = `<id>:<c|i|g>:<s|1|2>:<dep ids>`   (yield_sorted_modules)
-`graph <kinds> <nodes>` → `ok <topo 0/1> <groups>` (deps_from_import_graph; groups in the `plan` syntax)
+`graph <kinds> <nodes>` → `ok <topo 0/1><stubsDistinct 0/1> <groups>` (deps_from_import_graph; groups in the `plan` syntax)
    nodes  : `-` | `n;n;..`  n = `f,f,..|j,j,..`  f = `m<id>` (source) | `s<k>` (type stub), files in file-name order;
             j = position of a dep node in the list (dependencies first)
 `esc <cps>`  → `<cps> <wellEscaped 0/1>`      (cps = `-` | comma separated code points)
@@ -119,7 +119,7 @@ def doGraph (kinds nodes : String) : String :=
   | none => "bad-op"
   | some ns =>
     let gs := depsFromGraph ns
-    s!"ok {if topo ns then 1 else 0} {if gs.isEmpty then "-" else ";".intercalate (gs.map showGroup)}"
+    s!"ok {if topo ns then 1 else 0}{if stubsDistinct ns then 1 else 0} {if gs.isEmpty then "-" else ";".intercalate (gs.map showGroup)}"
 
 def showEval (r : Except PytypeModel.Ninja.Err (List Char × List Char)) : String :=
   match r with
